@@ -52,8 +52,7 @@ def symbolic_params(ctx, con, fi):
             continue
         ty = ctx.resolve_ty(ty)
         t = z3.Const("p_%s" % name, Z.Val)
-        ctx.assume(ty.inv(t))
-        sv = SV(t, ty)
+        sv = ctx.typed(t, ty)
         if isinstance(ty, TExc):
             from .repo import ExternalRef as _ER
 
@@ -79,6 +78,7 @@ def check_exit(I, con, bound, old_heap, tr_old_len, outcome, value):
     ctx = I.ctx
     new_heap = ctx.snapshot()
     spec = Spec(ctx, old_heap, new_heap)
+    spec.mode = "prove"
     _attach_trace(spec, ctx, tr_old_len)
     views = views_of(spec, bound, new_heap)
     name = short(con.key)
@@ -90,6 +90,13 @@ def check_exit(I, con, bound, old_heap, tr_old_len, outcome, value):
             if value is None and not isinstance(rty, (TAny, TOpt)):
                 ctx.oblige("%s/result-shape" % name, False, kind="post")
             else:
+                if isinstance(value, VDict) and getattr(value, "sym", None) is None and isinstance(rty, TMap):
+                    # a dict display with concrete keys returned where the contract speaks of a map: same content as a heap map
+                    m = ctx.alloc(None, rty)
+                    ctx.heap["$mhas"] = z3.Store(ctx.field_array("$mhas"), ctx.ref_id(m), z3.K(Z.Val, z3.BoolVal(False)))
+                    for k, v in value.items.items():
+                        I.B.map_set(I, m, k, v)
+                    value = m
                 sv = ctx.to_val(value)
                 rty = ctx.resolve_ty(rty)
                 ctx.oblige("%s/result-shape" % name, rty.inv(sv.t, goal=True), kind="post")
@@ -255,11 +262,41 @@ def discharge(ob, thorough=False):
     return ob
 
 
+def _alternates(f):
+    """does the formula contain a quantifier nested in another quantifier (or an existential at all)?"""
+    todo = [(f, 0)]
+    seen = set()
+    while todo:
+        e, depth = todo.pop()
+        if (e.get_id(), depth) in seen:
+            continue
+        seen.add((e.get_id(), depth))
+        if z3.is_quantifier(e):
+            if depth >= 1 or not e.is_forall():
+                return True
+            todo.append((e.body(), depth + 1))
+        else:
+            todo.extend((ch, depth) for ch in e.children())
+    return False
+
+
 def _retry_unknown(ob):
     """z3 said unknown.  Retry (a) with other random seeds - an answer there is an answer to the same query - and
     (b) looking for a counter-model among small sequences (every $len <= 1, <= 2): `sat` under an extra
     restriction is still a model of the unrestricted query, so it counts as a refutation; `unsat` under a
     restriction proves nothing and is ignored."""
+    # (c) proving from FEWER assumptions is always sound: drop the assumptions with quantifier alternation
+    # (forall-exists facts such as "every key is claimed by some plugin" feed matching loops and are rarely needed)
+    slim = [f for f in ob.pc if not _alternates(f)]
+    if len(slim) < len(ob.pc):
+        s = z3.Solver()
+        s.set("timeout", Z3_TIMEOUT_MS)
+        s.add(*slim)
+        s.add(z3.Not(ob.goal))
+        if s.check() == z3.unsat:
+            ob.status = "discharged"
+            ob.detail += " | retry without %d quantifier-alternating assumptions: unsat" % (len(ob.pc) - len(slim))
+            return
     lens = z3.Const("H_$len", IntArr)
     x = z3.Int("bx")
     attempts = [("seed=11", None, 11), ("len<=1", z3.ForAll([x], z3.Select(lens, x) <= 1), 0), ("len<=2", z3.ForAll([x], z3.Select(lens, x) <= 2), 0), ("seed=23", None, 23)]
@@ -356,6 +393,7 @@ def witness_cover(E, con):
     from .concrete import HeapBuilder, holds
 
     ctx = Ctx(E, [], "witness")
+    ctx.concrete = True
     hb = HeapBuilder(ctx)
     objs = con.witness()
     bound = {}
@@ -367,7 +405,7 @@ def witness_cover(E, con):
     spec.tr, spec.trlen, spec.tr_old_len = ctx.tr, ctx.trlen, ctx.trlen
     shapes_ok = z3.And(*[sv.ty.inv(sv.t, goal=True) for sv in bound.values()])
     cl = eval_clause(con.requires, spec, views_of(spec, bound, heap))
-    r = holds(z3.And(shapes_ok, *cl.values()))
+    r = holds(z3.Implies(z3.And(*ctx.pc), z3.And(shapes_ok, *cl.values())))
     return "sat" if r is True else "witness-does-not-satisfy-requires(%s)" % r
 
 
